@@ -95,6 +95,9 @@ func oneHistory(r *corr.Run, nrep, steps int, focus string) {
 			}
 		}
 	}
+	if len(w.reps) >= 3 && !w.failed && r.Chance(map[bool]int{true: 60, false: 25}[focus == "C09"]) {
+		w.staleBranch()
+	}
 	for step := 0; step < steps && !w.failed && r.TimeLeft(); step++ {
 		rep := w.reps[r.Intn(len(w.reps))]
 		k := r.Intn(100)
